@@ -8,39 +8,44 @@ def ctrlSpec (i : Instr) (s : State) : Option State :=
   -- EXEC.IF: TRUE keeps the first item (removes the second), FALSE keeps the second
   | .exec .if_ => match s.exec, s.bool with
     | a :: b :: e, c :: bl => some { s with exec := (if c then a else b) :: e, bool := bl }
+    -- "acts as a NOOP unless there are at least two items on the EXEC stack": nothing is consumed
+    | [], _ => some s
+    | [_], _ => some s
     | _, _ => none
   -- CODE.IF: TRUE executes the second CODE item, FALSE the first; both and the BOOLEAN are popped
   | .code .if_ => match s.code, s.bool with
     | top :: second :: l, c :: bl => some { s with code := l, bool := bl, exec := (if c then second else top) :: s.exec }
+    | [], _ => some s
+    | [_], _ => some s
     | _, _ => none
   -- EXEC.K removes the second item
   | .exec .k => match s.exec with
     | a :: _ :: e => some { s with exec := a :: e }
-    | _ => none
+    | _ => some s                 -- fewer than two items: NOOP
   -- EXEC.S: A B C  ->  A C ( B C )
   | .exec .s => match s.exec with
     | a :: b :: c :: e => some { s with exec := a :: c :: .list [b, c] :: e }
-    | _ => none
+    | _ => some s                 -- fewer than three items: NOOP
   -- EXEC.Y: X  ->  X ( EXEC.Y X )
   | .exec .y => match s.exec with
     | x :: e => some { s with exec := x :: .list [.instr (.exec .y), x] :: e }
-    | _ => none
+    | _ => some s
   -- EXEC.DUP ("do twice")
   | .stk .exec .dup => match s.exec with
     | x :: e => some { s with exec := x :: x :: e }
-    | _ => none
+    | _ => some s
   -- CODE.DO: execute the top CODE item, pop CODE afterwards
   | .code .do_ => match s.code with
     | c :: _ => some { s with exec := c :: .instr (.stk .code .pop) :: s.exec }
-    | _ => none
+    | _ => some s
   -- CODE.DO*: pop CODE first, then execute the item
   | .code .dostar => match s.code with
     | c :: _ => some { s with exec := .instr (.stk .code .pop) :: c :: s.exec }
-    | _ => none
+    | _ => some s
   -- CODE.QUOTE: the next EXEC item goes to CODE unexecuted
   | .code .quote => match s.exec with
     | x :: e => some { s with exec := e, code := x :: s.code }
-    | _ => none
+    | _ => some s
   | _ => none
 
 /-- the loop state seen from outside the body: everything but EXEC and INDEX -/
